@@ -370,6 +370,7 @@ type Flow struct {
 	Ret     map[*ssa.Function][]*Abs
 	Source  func(v ssa.Value) *Abs // optional: extra abstract value joined in for v (taint sources)
 	changed bool
+	frozen  map[ssa.Value]bool // values whose abstraction is fixed (context evaluation)
 	// NoTaintCallee: external callees whose results never carry their arguments' text
 	NoTaint map[string]bool
 }
@@ -413,7 +414,7 @@ func (f *Flow) cell(k interface{}) *Abs {
 }
 
 func (f *Flow) set(v ssa.Value, a *Abs) {
-	if a == nil {
+	if a == nil || f.frozen[v] {
 		return
 	}
 	if f.Source != nil {
@@ -517,6 +518,12 @@ func (f *Flow) refineByCond(v ssa.Value, a *Abs, c Cond) *Abs {
 		if other == v && (bo.Op == token.EQL) == c.True && !a.Bot {
 			return constAbs("")
 		}
+	}
+	if bo, ok := c.V.(*ssa.BinOp); ok {
+		// IndexAny(v, seps) < 0 (or == -1) known to hold: v contains none of seps, i.e. v is its own cut
+		if seps, okS := notFoundCond(bo, c.True, v); okS && !a.Bot {
+			return cutAt(a, v, seps)
+		}
 		return a
 	}
 	call, ok := c.V.(*ssa.Call)
@@ -586,6 +593,11 @@ func (f *Flow) stepInstr(fn *ssa.Function, b *ssa.BasicBlock, in ssa.Instruction
 	case *ssa.Slice:
 		x := f.get(t.X)
 		if _, isStr := t.X.Type().Underlying().(*types.Basic); isStr {
+			if seps, ok := indexCut(t); ok && !x.Bot {
+				// s[:IndexAny(s, seps)]: s truncated at the first of seps
+				f.set(t, cutAt(x, t.X, seps))
+				break
+			}
 			// substring: exclusions and taint preserved, shape mostly lost
 			n := taintOnly(false, x)
 			n.NoB = x.NoB
@@ -1009,4 +1021,150 @@ func (a *Abs) startsWithVerb(verb string) (bool, string) {
 		return true, "prefix " + strconvQuote(a.Pre)
 	}
 	return false, "verb " + verb + " may be followed by a byte other than space"
+}
+
+// indexSeps: call is strings.Index/IndexByte/IndexAny/IndexRune(x, <const>)
+// locating the first occurrence of a single byte out of a constant set.
+func indexSeps(v ssa.Value) (x ssa.Value, seps bset, ok bool) {
+	call, isC := v.(*ssa.Call)
+	if !isC {
+		return nil, seps, false
+	}
+	switch calleeName(&call.Call) {
+	case "strings.IndexAny":
+		if k, okk := constString(call.Call.Args[1]); okk && k != "" {
+			for i := 0; i < len(k); i++ {
+				if k[i] >= 0x80 {
+					return nil, seps, false
+				}
+				seps.add(k[i])
+			}
+			return call.Call.Args[0], seps, true
+		}
+	case "strings.Index":
+		if k, okk := constString(call.Call.Args[1]); okk && len(k) == 1 {
+			seps.add(k[0])
+			return call.Call.Args[0], seps, true
+		}
+	case "strings.IndexByte":
+		if k, okk := constInt(call.Call.Args[1]); okk && k >= 0 && k < 256 {
+			seps.add(byte(k))
+			return call.Call.Args[0], seps, true
+		}
+	}
+	return nil, seps, false
+}
+
+// indexCut: t is x[:Index*(x, seps)].
+func indexCut(t *ssa.Slice) (bset, bool) {
+	if t.Low != nil || t.High == nil {
+		return bset{}, false
+	}
+	x, seps, ok := indexSeps(t.High)
+	if !ok || x != t.X {
+		return bset{}, false
+	}
+	return seps, true
+}
+
+// notFoundCond: the condition (with polarity) states Index*(v, seps) found nothing.
+func notFoundCond(bo *ssa.BinOp, truth bool, v ssa.Value) (bset, bool) {
+	x, seps, ok := indexSeps(bo.X)
+	k, okK := constInt(bo.Y)
+	if !ok || !okK || x != v {
+		return seps, false
+	}
+	notFound := false
+	switch bo.Op {
+	case token.LSS:
+		notFound = truth && k == 0
+	case token.GEQ:
+		notFound = !truth && k == 0
+	case token.EQL:
+		notFound = truth && k == -1
+	case token.NEQ:
+		notFound = !truth && k == -1
+	case token.GTR:
+		notFound = !truth && k == -1
+	case token.LEQ:
+		notFound = truth && k == -1
+	}
+	return seps, notFound
+}
+
+// cutAt: abstract value of src (abstraction a) truncated at the first byte of seps.
+func cutAt(a *Abs, src ssa.Value, seps bset) *Abs {
+	n := a.clone()
+	n.First = nil
+	n.NoB = n.NoB.union(seps)
+	if a.Cut != nil {
+		n.Cut = &CutInfo{a.Cut.Src, a.Cut.Seps.union(seps)}
+	} else {
+		n.Cut = &CutInfo{src, seps}
+	}
+	cutStr := func(p string) (string, bool) {
+		for i := 0; i < len(p); i++ {
+			if seps.has(p[i]) {
+				return p[:i], true
+			}
+		}
+		return p, false
+	}
+	if p, was := cutStr(a.Pre); was {
+		n.Pre, n.Exact = p, true
+	} else if !a.Exact {
+		n.End = true
+		for c := 0; c < 256; c++ {
+			if seps.has(byte(c)) {
+				n.Next[c>>6] &^= 1 << (uint(c) & 63)
+			}
+		}
+	}
+	for k, p := range a.Taint {
+		if q, was := cutStr(p); was {
+			n.Taint[k] = q
+		}
+	}
+	return n
+}
+
+// WithParams re-evaluates fn with its parameters bound to args only (one
+// calling context), everything else taken from the global fixpoint.
+func (f *Flow) WithParams(fn *ssa.Function, args []*Abs) *Flow {
+	sub := &Flow{p: f.p, funcs: []*ssa.Function{fn}, Val: map[ssa.Value]*Abs{}, Cell: map[interface{}]*Abs{}, Ret: map[*ssa.Function][]*Abs{}, Source: f.Source, NoTaint: f.NoTaint, frozen: map[ssa.Value]bool{}}
+	local := map[ssa.Value]bool{}
+	for _, fx := range AnonClosure(fn) {
+		for _, b := range fx.Blocks {
+			for _, in := range b.Instrs {
+				if v, ok := in.(ssa.Value); ok {
+					local[v] = true
+				}
+			}
+		}
+	}
+	for k, v := range f.Val {
+		if !local[k] {
+			sub.Val[k] = v
+		}
+	}
+	for k, v := range f.Cell {
+		sub.Cell[k] = v
+	}
+	for k, v := range f.Ret {
+		sub.Ret[k] = append([]*Abs{}, v...)
+	}
+	for i, pr := range fn.Params {
+		if i < len(args) && args[i] != nil {
+			sub.Val[pr] = args[i]
+		}
+		sub.frozen[pr] = true
+	}
+	for iter := 0; iter < 50; iter++ {
+		sub.changed = false
+		sub.stepFunc(fn)
+		if !sub.changed {
+			break
+		}
+	}
+	return sub
 }
